@@ -35,6 +35,27 @@ CHECKS = {
         note="As C11. The negative check (a parked chain does not move) observes for 12 ms; a slower violation would be missed, never falsely reported.",
         technique="model-based testing with exhaustive pause/resume placement for a small configuration and proptest-generated scripts beyond",
     ),
+    "C14": dict(
+        category="exploration",
+        text=("Two generated searches against an explicit reference of what was recorded. direct-drive: every backend (HashMap, ndarray, Arrow, "
+              "Zarr sync, Zarr async over a store with generated write latencies, CSV with generated precision) is driven through the storage "
+              "traits (cfg-guarded re-export) with the real statistics schema of each preset and a draw schema holding scalar / vector / matrix "
+              "variables of every item type; generated record sequences with NaN, +-inf, -0.0, MAX, subnormals, empty / long / non-ASCII strings, "
+              "a generated presence pattern per event dimension and field, 1..4 chains, num_tune / num_draws from {0,1,2..13}, chunk sizes, early "
+              "finalisation, store_warmup on/off, flush and inspect interleaved. end-to-end: the real Sampler runs real chains on smooth and wall "
+              "densities into each backend wrapped in a tee that copies every accepted record; runs complete or are aborted at a generated point. "
+              "Oracle: finalize succeeds and the read-back (finalised objects; the Zarr store copied and re-opened by a fresh zarrs reader; CSV "
+              "files re-parsed) equals the reference bit for bit per chain and variable, in recording order, warmup before sampling, with the "
+              "declared type, shape and metadata; event arrays hold exactly the recorded events; store_warmup=false leaves exactly the sampling "
+              "rows; CSV tokens equal the value to half a unit of the printed precision. All backends are compared with the same reference, so "
+              "they agree with each other."),
+        design_ref="DESIGN.md section 3, C14",
+        note=("Each backend is held to what its format can express: HashMap, ndarray and Zarr encode draw / chain as array position, CSV holds "
+              "the seven CmdStan statistics and the numeric draw variables. Zarr stores the fields of an event dimension packed (k-th row = k-th "
+              "recorded value of that field); the check follows that layout and DESIGN.md records it as an observation. DateTime64 / TimeDelta64 "
+              "values are outside the property's quantifier and not generated."),
+        technique="proptest-generated record sequences and sampler runs; round-trip / differential against a recording reference (tee storage) with a fresh reader",
+    ),
     "C10": dict(
         category="exploration",
         text=("For generated settings (six presets), models, seeds and 1..8 chains the parallel Sampler is run several times with num_cores from "
